@@ -119,7 +119,9 @@ static void workload_body(uint64_t seed, uint64_t ops, Digest& d) {
       case 3: {   // streaming decoder over a concatenation
         gen::Bytes s; for (int k = 0; k < 3; k++) { const gen::Bytes& y = g_pool[(vh::prand(seed, 303, i * 4 + (uint64_t)k)) % g_pool.size()]; s.insert(s.end(), y.begin(), y.end()); }
         EvRec er{&d}; size_t off = 0;
-        while (off < s.size()) { struct cbor_decoder_result dr = cbor_stream_decode(s.data() + off, s.size() - off, &kEv, &er); d.add64(dr.status); if (dr.status != CBOR_DECODER_FINISHED) break; off += dr.read; }
+        // the stream is cut at a seeded length (0 included), so the loop always ends in the NEDATA / empty-buffer path or an error
+        size_t lim = (x >> 40) % 3 == 0 ? s.size() : (size_t)((x >> 16) % (s.size() + 1));
+        for (;;) { struct cbor_decoder_result dr = cbor_stream_decode(s.data() + off, lim - off, &kEv, &er); d.add64(dr.status); if (dr.status == CBOR_DECODER_NEDATA) d.add64(dr.required); if (dr.status != CBOR_DECODER_FINISHED) break; off += dr.read; }
         break;
       }
       default: {  // low-level encoders and a container grown step by step
